@@ -1657,9 +1657,25 @@ impl<S: Storage> Validator<S> {
                             );
                         }
                     } else {
-                        let comparing_content_paths =
-                            comparing_inventory.content_paths(comparing_digest).unwrap();
-                        let content_paths = inventory.content_paths(digest).unwrap();
+                        // A manifest may map a digest to no content path at all, in which
+                        // case there is nothing to look up
+                        let (comparing_content_paths, content_paths) = match (
+                            comparing_inventory.content_paths(comparing_digest),
+                            inventory.content_paths(digest),
+                        ) {
+                            (Some(comparing), Some(current)) => (comparing, current),
+                            _ => {
+                                result.error(
+                                    version_num.into(),
+                                    ErrorCode::E066,
+                                    format!(
+                                        "In inventory version {}, path '{}' is not mapped to the content paths it has in later inventories",
+                                        current_version, comparing_path
+                                    ),
+                                );
+                                continue;
+                            }
+                        };
 
                         if comparing_content_paths.len() == 1 {
                             if comparing_content_paths != content_paths {
